@@ -102,6 +102,8 @@ class Child(_Confined):
 
 
 CONTRACTS = [PreauthChild, Child]
+for _k in CONTRACTS:
+    _k.replay_decides = False  # abspath / normpath / join are uninterpreted functions of the path strings
 BOUNDED = bounded("C26")
 _SCOPE = ("real FilePath.child / descendant / preauthChild and full HTTP requests to Site(static.File(root)) on a scratch tree with prefix-sharing siblings (rootx/, root.bak): every concatenation of up to 3 (thorough 4) hostile fragments (/ \\ . .. NUL %2e %2f non-UTF-8, absolute paths) as names, 6 parent spellings, bytes and str; requests over a product of prefixes x '..' spellings x separator spellings x targets and 3 ignoredExts configurations; oracle: an independent component walk plus inode identity, and an audit hook recording every path opened / listed during a request judged by realpath")
 NOTES = dict(explanation="child / preauthChild proved to return only a path that passed the containment test, for arbitrary os.path behaviour; the real "
